@@ -374,6 +374,26 @@ func c07Reader(a *checkArgs, r *Result, dp *DriverPool, rng *rand.Rand) error {
 		}
 		items = append(items, item{fmt.Sprintf("spec-gen/%d lc%d lp%d pb%d dict%d mode%d ops%d", i, lc, lp, pb, dict, mode, nops), unhxe(rep), g.content})
 	}
+	{
+		// a header dictionary size that is not of the 2^n / 3*2^n form and exceeds the reader's default, with a match
+		// farther back than that default: the reader must size its dictionary from the header
+		ops := []string{"L7"}
+		nn := 1
+		for nn < 9000100 {
+			ops = append(ops, "M273,0")
+			nn += 273
+		}
+		ops = append(ops, "M100,9000000")
+		nn += 100
+		rep, err := dp.Ask(fmt.Sprintf("lzmabuild %d %d %s %d %s", 93, 12000000, "-", 1, strings.Join(ops, ".")))
+		if err != nil {
+			return err
+		}
+		if rep == "bad-op" {
+			return fmt.Errorf("lzmabuild rejected the far-match stream")
+		}
+		items = append(items, item{"spec-gen/far-match dict12000000", unhxe(rep), bytes.Repeat([]byte{7}, nn)})
+	}
 	var wg sync.WaitGroup
 	sem := make(chan struct{}, 16)
 	for _, it := range items {
